@@ -798,6 +798,21 @@ def run(ctx):
                    "harness/props/c15.py (history generator, one process per history and per reference rendering, byte "
                    "comparison modulo the date stamp, Coq term printer)",
                    "lxml / protobuf serialisation and the file system are outside the model"]
+    ctx.trusted.insert(3, "harness/props/c15_src.py: parser of the bodies of XMLFileWriter / ProtobufFileWriter write_to_file and "
+                          "write_scenario_to_file into step lists (coq/Gen/Src_writers.v, regenerated on every run, fail-closed; "
+                          "FileWriter._handle_file_path and the precision assignment of __init__ compared with their expected "
+                          "text); C15_step_is_source proves that running the parsed bodies (interpreter: Model/WritersSrc.v) is "
+                          "[step repaired] of Model/Writers.v on every world and operation; trusted: the parser and that each "
+                          "helper (_write_header, _add_all_*, tree.write, _serialize_write_msg) does what the model says of it "
+                          "(exercised by the correspondence)")
+    from props import c15_src
+    try:
+        changed = c15_src.generate()
+        ctx.notes.append(f"Gen/Src_writers.v regenerated from the source ({'changed' if changed else 'unchanged'})")
+    except Exception as e:   # SourceShapeError, SyntaxError, OSError: the model is no longer shown to be the source
+        ctx.proof_breaks.append({"theorem": "source parser:Gen/Src_writers.v (C15_step_is_source / C15_frames_are_source)",
+                                 "where": "harness/props/c15_src.py", "log": str(e)})
+        ctx.log(f"proof_broken theorem=C15_*_is_source (source parser: {e})")
     ctx.build_props(extra_targets=EXTRA_TARGETS)
     if ctx.tier == "thorough":
         ctx.coqchk()
